@@ -288,8 +288,57 @@ pub fn record_text(args: &[String]) -> Value {
             let mut g = Gen { r: &mut r, names };
             g.formula(depth, &Scope { fix: HashMap::new() })
         };
-        let text = match i % 4 {
+        let text = match i % 5 {
             0 => base, // a valid sentence
+            4 => {
+                // token-level mutation of a sentence: delete / duplicate / swap / replace one lexeme
+                // (near-sentences: a dropped comma, a doubled keyword, a missing bracket ..)
+                mutated += 1;
+                let mut lex: Vec<String> = vec![];
+                let mut cur = String::new();
+                for ch in base.chars() {
+                    if ch.is_alphanumeric() || ch == '_' || ch == '\'' {
+                        cur.push(ch);
+                    } else {
+                        if !cur.is_empty() {
+                            lex.push(std::mem::take(&mut cur));
+                        }
+                        if !ch.is_whitespace() {
+                            // keep multi-character symbols together
+                            if let Some(last) = lex.last_mut() {
+                                let joined = format!("{}{}", last, ch);
+                                if ["<=", "=>", "<=>", ">="].contains(&joined.as_str()) {
+                                    *last = joined;
+                                    continue;
+                                }
+                            }
+                            lex.push(ch.to_string());
+                        }
+                    }
+                }
+                if !cur.is_empty() {
+                    lex.push(cur);
+                }
+                if !lex.is_empty() {
+                    let p = r.gen_range(0..lex.len());
+                    match r.gen_range(0..4) {
+                        0 => {
+                            lex.remove(p);
+                        }
+                        1 => {
+                            let c = lex[p].clone();
+                            lex.insert(p, c);
+                        }
+                        2 => {
+                            if p + 1 < lex.len() {
+                                lex.swap(p, p + 1);
+                            }
+                        }
+                        _ => lex[p] = PIECES[r.gen_range(0..PIECES.len())].to_string(),
+                    }
+                }
+                lex.join(" ")
+            }
             1 | 2 => {
                 // mutate: delete / duplicate / swap / insert pieces
                 mutated += 1;
@@ -370,8 +419,12 @@ pub fn describe(args: &[String]) -> Value {
     let items = read_json(std::path::Path::new(&args[0]));
     let mut out = std::io::BufWriter::new(std::fs::File::create(&args[1]).expect("create"));
     let mut n = 0;
-    for it in items.as_array().expect("items") {
+    for (item_no, it) in items.as_array().expect("items").iter().enumerate() {
         let text = it["text"].as_str().expect("text").to_string();
+        if args.len() > 2 {
+            std::fs::write(&args[2], format!("{}", item_no)).ok(); // progress, for the orchestrator's watchdog
+        }
+        let no_api = it["no_api"].as_bool().unwrap_or(false);
         let order_names: Option<Vec<String>> = it["order"].as_str().and_then(|o| {
             let o = o.to_string();
             guarded(move || {
@@ -389,26 +442,68 @@ pub fn describe(args: &[String]) -> Value {
             Ok(Ok(pf)) => {
                 let m = canon_map(&pf);
                 let names: Vec<String> = pf.vars.iter().map(|v| v.name.as_ref().clone()).collect();
-                // API route: same ordering, ids 5, 9, 13, ..
-                let api = match parse(&text, mk(&|i| 5 + 4 * i)) {
-                    Ok(Ok(pf2)) => {
-                        let names2: Vec<String> = pf2.vars.iter().map(|v| v.name.as_ref().clone()).collect();
-                        match guarded(|| pf2.eval()) {
-                            Ok(res) => {
-                                let mut cols = names.clone();
-                                if cols.is_empty() {
-                                    cols.push("__unused0".into());
-                                }
-                                let idx_ok = guarded(|| pf2.free_vars.iter().map(|v| pf2.to_free_index(v)).collect::<Vec<_>>())
-                                    .map(|ix| ix == (0..pf2.free_vars.len()).collect::<Vec<_>>())
-                                    .unwrap_or(false);
-                                json!({"tt": truth_table(&res, &cols), "ok": well_formed(&res, None) && idx_ok && names2 == names})
-                            }
-                            Err(msg) => json!({"panic": msg}),
-                        }
+                // API route: the same ordering as a NamedSymbol vector under several id schemes
+                // (distinct ids that are not 0..k-1: gaps, 1-based, even, odd, large)
+                let schemes: [(&str, &dyn Fn(usize) -> usize); 5] = [
+                    ("5+4i", &|i| 5 + 4 * i),
+                    ("i+1", &|i| i + 1),
+                    ("2i", &|i| 2 * i),
+                    ("2i+1", &|i| 2 * i + 1),
+                    ("1000+i", &|i| 1000 + i),
+                ];
+                let mut api = json!({"panic": "no scheme ran"});
+                for (sname, f) in schemes.iter() {
+                    if no_api {
+                        api = json!({"skipped": true});
+                        break;
                     }
-                    _ => json!({"panic": "API parse failed"}),
-                };
+                    api = match parse(&text, mk(f)) {
+                        Ok(Ok(pf2)) => {
+                            let names2: Vec<String> = pf2.vars.iter().map(|v| v.name.as_ref().clone()).collect();
+                            match guarded(|| pf2.eval()) {
+                                Ok(res) => {
+                                    let mut cols = names.clone();
+                                    if cols.is_empty() {
+                                        cols.push("__unused0".into());
+                                    }
+                                    let idx_ok = guarded(|| pf2.free_vars.iter().map(|v| pf2.to_free_index(v)).collect::<Vec<_>>())
+                                        .map(|ix| ix == (0..pf2.free_vars.len()).collect::<Vec<_>>())
+                                        .unwrap_or(false);
+                                    let free2: Vec<String> = pf2.free_vars.iter().map(|v| v.name.as_ref().clone()).collect();
+                                    let free1: Vec<String> = pf.free_vars.iter().map(|v| v.name.as_ref().clone()).collect();
+                                    // what the property demands of the variable list: every name once, the
+                                    // listed names in the order of the list (unlisted names may go anywhere),
+                                    // the same free variables
+                                    let mut sorted2 = names2.clone();
+                                    sorted2.sort();
+                                    let mut sorted1 = names.clone();
+                                    sorted1.sort();
+                                    let listed: Vec<String> = order_names.clone().unwrap_or_default();
+                                    let proj = |ns: &Vec<String>| -> Vec<String> { ns.iter().filter(|n| listed.contains(n)).cloned().collect() };
+                                    let mut fs2 = free2.clone();
+                                    fs2.sort();
+                                    let mut fs1 = free1.clone();
+                                    fs1.sort();
+                                    json!({"tt": truth_table(&res, &cols), "scheme": sname,
+                                           "ok": well_formed(&res, None) && idx_ok && sorted2 == sorted1 && proj(&names2) == proj(&names) && fs2 == fs1})
+                                }
+                                Err(msg) => json!({"panic": msg, "scheme": sname}),
+                            }
+                        }
+                        _ => json!({"panic": "API parse failed", "scheme": sname}),
+                    };
+                    // stop at the first scheme that deviates from the CLI-style route (ids 0..k-1)
+                    let base_tt = {
+                        let mut cols = names.clone();
+                        if cols.is_empty() {
+                            cols.push("__unused0".into());
+                        }
+                        guarded(|| truth_table(&pf.eval(), &cols)).ok()
+                    };
+                    if api.get("panic").is_some() || api["ok"] == false || base_tt.map(|t| json!(t) != api["tt"]).unwrap_or(true) {
+                        break;
+                    }
+                }
                 json!({"parse_ok": true, "names": names, "ast": rename(&tree_json(&pf.bdd), &m), "api": api,
                        "free": pf.free_vars.iter().map(|v| v.name.as_ref().clone()).collect::<Vec<_>>()})
             }
